@@ -171,3 +171,14 @@ pub fn match_known<'a>(
             && k.signature_all.iter().all(|s| signature.contains(s.as_str()))
     })
 }
+
+/// Digest of a run's record set (order-normalised by the caller). Two runs of the same check with
+/// the same seed must produce the same digest whatever the number of worker processes.
+pub fn digest_records<'a>(lines: impl Iterator<Item = &'a Value>) -> String {
+    let mut h = blake3::Hasher::new();
+    for v in lines {
+        h.update(v.to_string().as_bytes());
+        h.update(b"\n");
+    }
+    h.finalize().to_hex()[..16].to_string()
+}
